@@ -716,6 +716,8 @@ pub open spec fn ca_roots(cs: Seq<Certificate>) -> Option<Seq<Root>> decreases c
              ensures=[Clause('X4_the_outer_block_only_wraps_the_error', 'connect_ok(is_https, tls, r)')])
         u.item(KN, 'struct', 'Connector')
         u.raw('// A-derive-04: #[derive(Clone)] on TlsConnector (dropped with the attributes): the same connector\nimpl Clone for TlsConnector { #[verifier::external_body] fn clone(&self) -> (r: Self) ensures r == *self { unimplemented!() } }')
+        u.fn(KN, 'new', within='impl<C> Connector<C>', header='impl<C> Connector<C> {', close=True, display='Connector::new',
+             ensures=[Clause('Y0_the_connector_holds_the_tls_configuration_it_was_given_or_none', 'r.tls == tls && r.inner == inner')])
         u.fn(VK, 'call', within='impl<C> Connector<C>', header='impl<C: UriService> Connector<C> {', close=True, display='Connector::call',
              sig_edits=[lambda t: t.sub_code('R9', r'Self::Future', 'impl Future<Output = Result<BoxedIo, ConnectError>>')],
              body_edits=[lambda t: t.sub_code('R17', r'uri\.scheme_str\(\) == Some\("https"\)', 'verif_opt_str_eq(uri.scheme_str(), Some("https"))')],
